@@ -1,1 +1,911 @@
-//! (stub) filled in by its owner
+//! World binding (properties C08, C09): drives a REAL `shred::World` call by call and
+//! observes the abstract state of spec/World.tla after every call.
+//!
+//! * four concrete resource types of different size / alignment / drop behaviour, each
+//!   value carrying an `ident` whose destructor runs are counted in a global registry;
+//! * every call is wrapped in `catch_unwind`; a panic is an outcome (classified by its
+//!   message), never a harness failure;
+//! * real guards are kept alive in a table (`'static` lifetimes laundered through a raw
+//!   pointer; the driver itself obeys the compile-time rule "no `&mut World` call while a
+//!   guard lives");
+//! * after every call the driver probes every cell (single-threaded, quiescent):
+//!   `try_borrow_mut` first (a failed exclusive attempt leaves the counter untouched),
+//!   then `try_borrow` (a failed shared attempt on an exclusively borrowed cell leaves a
+//!   stray increment that atomic_refcell wipes when the writer releases; it is invisible
+//!   to every later operation, see atomic_refcell 0.1.14 `AtomicBorrowRef::try_new`).
+//!
+//! The driver decides nothing: outcomes and observations go into ndjson events that TLC
+//! judges with spec/WorldTrace.tla.  The only "knowledge" here are two safety valves
+//! (`abort`): once a stored value's real type differs from its key's type, or a granted
+//! guard aliases a guard the driver already holds, continuing would be undefined
+//! behaviour in the harness, so the block ends after that event has been logged.
+use std::{
+    any::{Any, TypeId},
+    collections::BTreeMap,
+    panic::{catch_unwind, AssertUnwindSafe},
+    sync::{
+        atomic::{AtomicU32, Ordering},
+        Mutex,
+    },
+};
+
+use serde::Deserialize;
+use serde_json::{json, Value};
+use shred::{
+    cell::{AtomicRef, AtomicRefMut},
+    CastFrom, Fetch, FetchMut, MetaTable, Read, Resource, ResourceId, SystemData, World, Write,
+};
+
+// ------------------------------------------------------------------ idents and drop counts
+
+static DROPS: Mutex<Vec<u32>> = Mutex::new(Vec::new());
+static NEXT: AtomicU32 = AtomicU32::new(1);
+
+pub fn reset_idents() {
+    DROPS.lock().unwrap().clear();
+    NEXT.store(1, Ordering::SeqCst);
+}
+pub fn new_ident() -> u32 {
+    let i = NEXT.fetch_add(1, Ordering::SeqCst);
+    let mut d = DROPS.lock().unwrap();
+    while d.len() < i as usize {
+        d.push(0);
+    }
+    i
+}
+pub fn drops() -> Vec<u32> {
+    DROPS.lock().unwrap().clone()
+}
+
+pub struct Handle {
+    ident: u32,
+}
+impl Drop for Handle {
+    fn drop(&mut self) {
+        if let Ok(mut d) = DROPS.lock() {
+            if let Some(c) = d.get_mut(self.ident as usize - 1) {
+                *c += 1;
+            }
+        }
+    }
+}
+
+// ------------------------------------------------------------------ resource types
+
+pub trait Probe {
+    fn tag(&self) -> usize;
+    fn get(&self) -> (i64, u32);
+    fn set(&mut self, p: i64);
+    fn canary(&self) -> u64;
+    fn set_canary(&mut self, v: u64);
+}
+unsafe impl<T: Probe + 'static> CastFrom<T> for dyn Probe {
+    fn cast(t: *mut T) -> *mut Self {
+        t
+    }
+}
+
+pub trait Tracked: Resource + Probe + Default + Sized {
+    const CI: usize;
+    fn make(ident: u32, p: i64) -> Self;
+}
+
+/// small
+pub struct RA {
+    h: Handle,
+    p: i64,
+    canary: u64,
+}
+/// large, payload in the middle
+pub struct RB {
+    pad: [u64; 12],
+    p: i64,
+    h: Handle,
+    canary: u64,
+    tail: [u8; 3],
+}
+/// owns heap memory (payload lives on the heap)
+pub struct RC {
+    v: Vec<i64>,
+    name: String,
+    canary: u64,
+    h: Handle,
+}
+/// over-aligned, fields in yet another order
+#[repr(align(64))]
+pub struct RD {
+    canary: u64,
+    h: Handle,
+    p: i64,
+}
+
+macro_rules! probe_impl {
+    ($T:ident, $ci:expr, $get:expr, $set:expr, $mk:expr) => {
+        impl Probe for $T {
+            fn tag(&self) -> usize {
+                $ci
+            }
+            fn get(&self) -> (i64, u32) {
+                ($get(self), self.h.ident)
+            }
+            fn set(&mut self, p: i64) {
+                $set(self, p)
+            }
+            fn canary(&self) -> u64 {
+                unsafe { std::ptr::read_volatile(&self.canary) }
+            }
+            fn set_canary(&mut self, v: u64) {
+                unsafe { std::ptr::write_volatile(&mut self.canary, v) }
+            }
+        }
+        impl Tracked for $T {
+            const CI: usize = $ci;
+            fn make(ident: u32, p: i64) -> Self {
+                $mk(ident, p)
+            }
+        }
+        impl Default for $T {
+            fn default() -> Self {
+                Self::make(new_ident(), 0)
+            }
+        }
+    };
+}
+probe_impl!(RA, 0, |s: &RA| s.p, |s: &mut RA, p| s.p = p, |i, p| RA { h: Handle { ident: i }, p, canary: 0 });
+probe_impl!(RB, 1, |s: &RB| s.p, |s: &mut RB, p| s.p = p, |i, p| RB {
+    pad: [0xA5A5_A5A5_A5A5_A5A5; 12],
+    p,
+    h: Handle { ident: i },
+    canary: 0,
+    tail: [7; 3]
+});
+probe_impl!(RC, 2, |s: &RC| s.v[3], |s: &mut RC, p| s.v[3] = p, |i, p| RC {
+    v: vec![-1, -2, -3, p, -5],
+    name: format!("rc-{}", i),
+    canary: 0,
+    h: Handle { ident: i }
+});
+probe_impl!(RD, 3, |s: &RD| s.p, |s: &mut RD, p| s.p = p, |i, p| RD { canary: 0, h: Handle { ident: i }, p });
+
+pub const NCONC: usize = 4;
+
+macro_rules! with_ty {
+    ($ci:expr, $T:ident => $body:expr) => {
+        match $ci {
+            0 => {
+                type $T = RA;
+                $body
+            }
+            1 => {
+                type $T = RB;
+                $body
+            }
+            2 => {
+                type $T = RC;
+                $body
+            }
+            _ => {
+                type $T = RD;
+                $body
+            }
+        }
+    };
+}
+
+macro_rules! with_member {
+    ($k:expr, $ci:expr, $M:ident => $body:expr) => {
+        with_ty!($ci, TT => match $k {
+            "read" => {
+                type $M = Read<'static, TT>;
+                $body
+            }
+            "write" => {
+                type $M = Write<'static, TT>;
+                $body
+            }
+            "optread" => {
+                type $M = Option<Read<'static, TT>>;
+                $body
+            }
+            _ => {
+                type $M = Option<Write<'static, TT>>;
+                $body
+            }
+        })
+    };
+}
+
+fn conc_of_typeid(t: TypeId) -> Option<usize> {
+    if t == TypeId::of::<RA>() {
+        Some(0)
+    } else if t == TypeId::of::<RB>() {
+        Some(1)
+    } else if t == TypeId::of::<RC>() {
+        Some(2)
+    } else if t == TypeId::of::<RD>() {
+        Some(3)
+    } else {
+        None
+    }
+}
+
+/// (concrete type index, payload, ident) of a stored value, through CHECKED downcasts only
+fn read_dyn(r: &dyn Resource) -> Option<(usize, i64, u32)> {
+    let ci = conc_of_typeid(r.type_id())?;
+    let (p, i) = with_ty!(ci, T => r.downcast_ref::<T>().map(|v| v.get()))?;
+    Some((ci, p, i))
+}
+
+// ------------------------------------------------------------------ guards
+
+pub trait AnyGuard {
+    /// (concrete type index, payload, ident) read through the guard
+    fn read(&self) -> (usize, i64, u32);
+    fn write(&mut self, p: i64);
+    fn dup(&self) -> Option<Box<dyn AnyGuard>>;
+    fn canary(&self) -> u64;
+    fn set_canary(&mut self, v: u64);
+}
+macro_rules! guard_impl {
+    ($G:ident, $mutable:expr, $dup:expr) => {
+        impl<T: Tracked> AnyGuard for $G<'static, T> {
+            fn read(&self) -> (usize, i64, u32) {
+                let v: &T = &*self;
+                let (p, i) = v.get();
+                (v.tag(), p, i)
+            }
+            #[allow(unused_variables, unused_mut)]
+            fn write(&mut self, p: i64) {
+                $mutable(self, Some(p), None)
+            }
+            fn dup(&self) -> Option<Box<dyn AnyGuard>> {
+                $dup(self)
+            }
+            fn canary(&self) -> u64 {
+                let v: &T = &*self;
+                v.canary()
+            }
+            fn set_canary(&mut self, v: u64) {
+                $mutable(self, None, Some(v))
+            }
+        }
+    };
+}
+fn no_write<G>(_: &mut G, _: Option<i64>, _: Option<u64>) {
+    panic!("harness: write through a shared guard")
+}
+fn wr_fm<T: Tracked>(g: &mut FetchMut<'static, T>, p: Option<i64>, c: Option<u64>) {
+    if let Some(p) = p {
+        g.set(p)
+    }
+    if let Some(c) = c {
+        g.set_canary(c)
+    }
+}
+fn wr_w<T: Tracked>(g: &mut Write<'static, T>, p: Option<i64>, c: Option<u64>) {
+    if let Some(p) = p {
+        g.set(p)
+    }
+    if let Some(c) = c {
+        g.set_canary(c)
+    }
+}
+guard_impl!(Fetch, no_write, |s: &Fetch<'static, T>| Some(Box::new(s.clone()) as Box<dyn AnyGuard>));
+guard_impl!(FetchMut, wr_fm, |_s: &FetchMut<'static, T>| None);
+guard_impl!(Read, no_write, |_s: &Read<'static, T>| None);
+guard_impl!(Write, wr_w, |_s: &Write<'static, T>| None);
+
+impl AnyGuard for AtomicRef<'static, dyn Probe> {
+    fn read(&self) -> (usize, i64, u32) {
+        let (p, i) = self.get();
+        (self.tag(), p, i)
+    }
+    fn write(&mut self, _: i64) {
+        panic!("harness: write through a shared guard")
+    }
+    fn dup(&self) -> Option<Box<dyn AnyGuard>> {
+        None
+    }
+    fn canary(&self) -> u64 {
+        (**self).canary()
+    }
+    fn set_canary(&mut self, _: u64) {
+        panic!("harness: write through a shared guard")
+    }
+}
+impl AnyGuard for AtomicRefMut<'static, dyn Probe> {
+    fn read(&self) -> (usize, i64, u32) {
+        let (p, i) = self.get();
+        (self.tag(), p, i)
+    }
+    fn write(&mut self, p: i64) {
+        self.set(p)
+    }
+    fn dup(&self) -> Option<Box<dyn AnyGuard>> {
+        None
+    }
+    fn canary(&self) -> u64 {
+        (**self).canary()
+    }
+    fn set_canary(&mut self, v: u64) {
+        (**self).set_canary(v)
+    }
+}
+
+pub struct GEntry {
+    pub g: Box<dyn AnyGuard>,
+    pub ty: u32,
+    pub dy: u32,
+    pub kind: char,
+}
+/// guards cross threads only in the multi-thread mode (all resource types are Send + Sync)
+pub struct SendEntry(pub GEntry);
+unsafe impl Send for SendEntry {}
+
+/// one member of a system-data shape
+pub trait Member: SystemData<'static> {
+    fn into_guard(self) -> Option<(Box<dyn AnyGuard>, char)>;
+    fn peek(&self) -> Option<(usize, i64, u32)>;
+    fn poke(&mut self, p: i64);
+}
+impl<T: Tracked> Member for Read<'static, T> {
+    fn into_guard(self) -> Option<(Box<dyn AnyGuard>, char)> {
+        Some((Box::new(self), 'r'))
+    }
+    fn peek(&self) -> Option<(usize, i64, u32)> {
+        Some(AnyGuard::read(self))
+    }
+    fn poke(&mut self, _: i64) {}
+}
+impl<T: Tracked> Member for Write<'static, T> {
+    fn into_guard(self) -> Option<(Box<dyn AnyGuard>, char)> {
+        Some((Box::new(self), 'w'))
+    }
+    fn peek(&self) -> Option<(usize, i64, u32)> {
+        Some(AnyGuard::read(self))
+    }
+    fn poke(&mut self, p: i64) {
+        AnyGuard::write(self, p)
+    }
+}
+impl<T: Tracked> Member for Option<Read<'static, T>> {
+    fn into_guard(self) -> Option<(Box<dyn AnyGuard>, char)> {
+        self.map(|g| (Box::new(g) as Box<dyn AnyGuard>, 'r'))
+    }
+    fn peek(&self) -> Option<(usize, i64, u32)> {
+        self.as_ref().map(|g| AnyGuard::read(g))
+    }
+    fn poke(&mut self, _: i64) {}
+}
+impl<T: Tracked> Member for Option<Write<'static, T>> {
+    fn into_guard(self) -> Option<(Box<dyn AnyGuard>, char)> {
+        self.map(|g| (Box::new(g) as Box<dyn AnyGuard>, 'w'))
+    }
+    fn peek(&self) -> Option<(usize, i64, u32)> {
+        self.as_ref().map(|g| AnyGuard::read(g))
+    }
+    fn poke(&mut self, p: i64) {
+        if let Some(g) = self.as_mut() {
+            AnyGuard::write(g, p)
+        }
+    }
+}
+
+// ------------------------------------------------------------------ calls and outcomes
+
+#[derive(Clone, Debug, Deserialize, Default)]
+pub struct ShapeM {
+    pub k: String,
+    pub t: u32,
+}
+#[derive(Clone, Debug, Deserialize, Default)]
+pub struct CallSpec {
+    pub op: String,
+    #[serde(default)]
+    pub targ: u32,
+    #[serde(default)]
+    pub ty: u32,
+    #[serde(default)]
+    pub dy: u32,
+    #[serde(default)]
+    pub p: i64,
+    #[serde(default)]
+    pub gs: Vec<u32>,
+    #[serde(default)]
+    pub shape: Vec<ShapeM>,
+}
+
+pub fn panic_why(e: &(dyn Any + Send)) -> &'static str {
+    let msg: &str = if let Some(s) = e.downcast_ref::<String>() {
+        s.as_str()
+    } else if let Some(s) = e.downcast_ref::<&'static str>() {
+        s
+    } else {
+        ""
+    };
+    if msg.contains("wrong type ID") {
+        "type"
+    } else if msg.contains("already borrowed") || msg.contains("already mutably borrowed") || msg.contains("already immutably borrowed")
+    {
+        "borrow"
+    } else if msg.contains("Tried to fetch resource") {
+        "absent"
+    } else if msg.starts_with("user") {
+        "user"
+    } else {
+        "other"
+    }
+}
+
+fn out(k: &str, why: &str, vs: Vec<Value>) -> Value {
+    json!({"k": k, "why": why, "vs": vs})
+}
+fn noval() -> Value {
+    json!({"type":0,"payload":0,"ident":0})
+}
+
+type Res<T> = Result<T, &'static str>;
+fn guarded<R>(f: impl FnOnce() -> R) -> Res<R> {
+    catch_unwind(AssertUnwindSafe(f)).map_err(|e| panic_why(&*e))
+}
+
+pub struct Driver {
+    world: *mut World,
+    pub table: BTreeMap<u32, GEntry>,
+    /// abstract type (1-based) -> concrete type index
+    pub tymap: Vec<usize>,
+    /// abstract dynamic id -> real dynamic id (0 -> 0)
+    pub dynmap: Vec<u64>,
+    meta: *mut MetaTable<dyn Probe>,
+    /// set when continuing would be undefined behaviour inside the harness
+    pub abort: Option<String>,
+}
+
+impl Drop for Driver {
+    fn drop(&mut self) {
+        self.table.clear();
+        unsafe {
+            drop(Box::from_raw(self.meta));
+            drop(Box::from_raw(self.world));
+        }
+    }
+}
+
+impl Driver {
+    /// `tymap[k]` = concrete type of abstract type k+1; `dynmap[d]` = real dynamic id of d
+    pub fn new(tymap: Vec<usize>, dynmap: Vec<u64>) -> Driver {
+        assert_eq!(dynmap[0], 0);
+        reset_idents();
+        let mut meta = MetaTable::<dyn Probe>::new();
+        for &ci in &tymap {
+            with_ty!(ci, T => meta.register::<T>());
+        }
+        Driver { world: Box::into_raw(Box::new(World::empty())), table: BTreeMap::new(), tymap, dynmap, meta: Box::into_raw(Box::new(meta)), abort: None }
+    }
+    pub fn ntypes(&self) -> u32 {
+        self.tymap.len() as u32
+    }
+    pub fn ndyns(&self) -> u32 {
+        self.dynmap.len() as u32
+    }
+    pub fn w(&self) -> &'static World {
+        unsafe { &*self.world }
+    }
+    #[allow(clippy::mut_from_ref)]
+    fn wm(&self) -> &'static mut World {
+        assert!(self.table.is_empty(), "harness: &mut World call while guards are live");
+        unsafe { &mut *self.world }
+    }
+    pub fn ci(&self, ty: u32) -> usize {
+        self.tymap[ty as usize - 1]
+    }
+    fn abs(&self, ci: usize) -> i64 {
+        self.tymap.iter().position(|&c| c == ci).map(|k| k as i64 + 1).unwrap_or(-1)
+    }
+    pub fn rid(&self, ty: u32, dy: u32) -> ResourceId {
+        let d = self.dynmap[dy as usize];
+        with_ty!(self.ci(ty), T => ResourceId::new_with_dynamic_id::<T>(d))
+    }
+    fn val(&self, r: (usize, i64, u32)) -> Value {
+        json!({"type": self.abs(r.0), "payload": r.1, "ident": r.2})
+    }
+    pub fn free_gid(&self) -> u32 {
+        let mut g = 1;
+        while self.table.contains_key(&g) {
+            g += 1;
+        }
+        g
+    }
+    fn aliasing(&self, ty: u32, dy: u32, kind: char) -> bool {
+        self.table.values().any(|e| e.ty == ty && e.dy == dy && (kind == 'w' || e.kind == 'w'))
+    }
+    /// store a granted guard under the smallest free id
+    fn grant(&mut self, g: Box<dyn AnyGuard>, ty: u32, dy: u32, kind: char) -> u32 {
+        if self.aliasing(ty, dy, kind) {
+            self.abort = Some(format!("granted {} guard on ({},{}) aliases a live guard", kind, ty, dy));
+        }
+        let id = self.free_gid();
+        self.table.insert(id, GEntry { g, ty, dy, kind });
+        id
+    }
+
+    // -------------------------------------------------------------- observation
+
+    pub fn observe(&mut self) -> Value {
+        let quiescent = self.table.is_empty();
+        let mut cells = Vec::new();
+        for ty in 1..=self.ntypes() {
+            for dy in 0..self.ndyns() {
+                let id = self.rid(ty, dy);
+                let cell = unsafe { self.w().try_fetch_internal(id.clone()) };
+                let mut c = json!({"ty":ty,"dy":dy,"here":false,"tid":0,"payload":0,"ident":0,"b":"free"});
+                if let Some(cell) = cell {
+                    c["here"] = json!(true);
+                    let mut seen: Option<(usize, i64, u32)> = None;
+                    let mut known = false;
+                    let b = match cell.try_borrow_mut() {
+                        Ok(m) => {
+                            seen = read_dyn(&**m);
+                            known = true;
+                            "free"
+                        }
+                        Err(_) => match cell.try_borrow() {
+                            Ok(r) => {
+                                seen = read_dyn(&**r);
+                                known = true;
+                                "shared"
+                            }
+                            Err(_) => {
+                                // exclusively borrowed: by one of our own guards, read through it
+                                if let Some(e) = self.table.values().find(|e| e.ty == ty && e.dy == dy && e.kind == 'w') {
+                                    seen = Some(e.g.read());
+                                    known = true;
+                                }
+                                "excl"
+                            }
+                        },
+                    };
+                    c["b"] = json!(b);
+                    if quiescent {
+                        // the brief's probe: get_mut_raw(id).type_id()
+                        let raw = self.wm().get_mut_raw(id).map(|r| (*r).type_id());
+                        let via_raw = raw.and_then(conc_of_typeid);
+                        if via_raw != seen.map(|s| s.0) {
+                            known = false;
+                        }
+                    }
+                    match seen {
+                        Some(s) if known => {
+                            c["tid"] = json!(self.abs(s.0));
+                            c["payload"] = json!(s.1);
+                            c["ident"] = json!(s.2);
+                            if self.abs(s.0) != ty as i64 {
+                                self.abort = Some(format!("value of type {} stored under ({},{})", self.abs(s.0), ty, dy));
+                            }
+                        }
+                        _ => {
+                            c["tid"] = json!(-1);
+                            self.abort = Some(format!("value under ({},{}) is not readable", ty, dy));
+                        }
+                    }
+                }
+                cells.push(c);
+            }
+        }
+        let guards: Vec<Value> = self
+            .table
+            .iter()
+            .map(|(g, e)| {
+                let r = e.g.read();
+                json!({"g":g,"ty":e.ty,"dy":e.dy,"kind":e.kind.to_string(),"payload":r.1,"ident":r.2})
+            })
+            .collect();
+        json!({"cells": cells, "guards": guards, "drops": drops()})
+    }
+
+    // -------------------------------------------------------------- one call
+
+    /// Executes the call on the real world; returns the complete `call` event
+    /// (call, gids of granted guards, outcome, observation after the call).
+    pub fn do_call(&mut self, c: &CallSpec) -> Value {
+        let mut gs: Vec<u32> = c.gs.clone();
+        let (ty, dy) = match c.op.as_str() {
+            "insert" | "remove" | "or_insert" | "or_insert_with" | "get_mut" | "has_value" | "fetch" | "try_fetch" | "fetch_mut"
+            | "try_fetch_mut" => (c.targ, 0),
+            _ => (c.ty, c.dy),
+        };
+        let o = self.exec_op(c, ty, dy, &mut gs);
+        let obs = self.observe();
+        let shape: Vec<Value> = c.shape.iter().map(|m| json!({"k": m.k, "t": m.t})).collect();
+        json!({"ev":"call","op":c.op,"targ":c.targ,"ty":ty,"dy":dy,"p":c.p,"gs":gs,"shape":shape,"out":o,"obs":obs})
+    }
+
+    fn exec_op(&mut self, c: &CallSpec, ty: u32, dy: u32, gs: &mut Vec<u32>) -> Value {
+        let p = c.p;
+        let op = c.op.as_str();
+        match op {
+            "insert" => with_ty!(self.ci(c.targ), R => {
+                let v = R::make(new_ident(), p);
+                let w = self.wm();
+                match guarded(move || w.insert(v)) { Ok(()) => out("unit", "", vec![]), Err(y) => out("panic", y, vec![]) }
+            }),
+            "insert_by_id" => with_ty!(self.ci(c.targ), R => {
+                let v = R::make(new_ident(), p);
+                let (w, id) = (self.wm(), self.rid(ty, dy));
+                match guarded(move || w.insert_by_id(id, v)) { Ok(()) => out("unit", "", vec![]), Err(y) => out("panic", y, vec![]) }
+            }),
+            "remove" | "remove_by_id" => with_ty!(self.ci(c.targ), R => {
+                let (w, id) = (self.wm(), self.rid(ty, dy));
+                let r = if op == "remove" { guarded(move || w.remove::<R>()) } else { guarded(move || w.remove_by_id::<R>(id)) };
+                match r {
+                    Ok(Some(v)) => { let (pp, i) = v.get(); let o = out("some", "", vec![self.val((v.tag(), pp, i))]); drop(v); o }
+                    Ok(None) => out("none", "", vec![]),
+                    Err(y) => out("panic", y, vec![]),
+                }
+            }),
+            "or_insert" | "or_insert_with" => with_ty!(self.ci(c.targ), R => {
+                let w = self.wm();
+                let r = if op == "or_insert" {
+                    let v = R::make(new_ident(), p);
+                    guarded(move || { let g = w.entry::<R>().or_insert(v); AnyGuard::read(&g) })
+                } else {
+                    guarded(move || { let g = w.entry::<R>().or_insert_with(|| R::make(new_ident(), p)); AnyGuard::read(&g) })
+                };
+                match r { Ok(x) => out("guard", "", vec![self.val(x)]), Err(y) => out("panic", y, vec![]) }
+            }),
+            "get_mut" => with_ty!(self.ci(c.targ), R => {
+                let w = self.wm();
+                match guarded(move || w.get_mut::<R>().map(|v| { let r = (v.tag(), v.get().0, v.get().1); if p != 0 { v.set(p) } r })) {
+                    Ok(Some(x)) => out("some", "", vec![self.val(x)]),
+                    Ok(None) => out("none", "", vec![]),
+                    Err(y) => out("panic", y, vec![]),
+                }
+            }),
+            "get_mut_raw" => {
+                let (w, id) = (self.wm(), self.rid(ty, dy));
+                let r = guarded(move || {
+                    w.get_mut_raw(id).map(|r| {
+                        let seen = read_dyn(&*r);
+                        if let (Some(s), true) = (seen, p != 0) {
+                            with_ty!(s.0, T => if let Some(v) = r.downcast_mut::<T>() { v.set(p) });
+                        }
+                        seen
+                    })
+                });
+                match r {
+                    Ok(Some(Some(x))) => out("some", "", vec![self.val(x)]),
+                    Ok(Some(None)) => out("some", "", vec![json!({"type":-1,"payload":0,"ident":0})]),
+                    Ok(None) => out("none", "", vec![]),
+                    Err(y) => out("panic", y, vec![]),
+                }
+            }
+            "has_value" => with_ty!(self.ci(c.targ), R => {
+                let w = self.w();
+                match guarded(move || w.has_value::<R>()) { Ok(b) => out(if b { "true" } else { "false" }, "", vec![]), Err(y) => out("panic", y, vec![]) }
+            }),
+            "has_value_raw" => {
+                let (w, id) = (self.w(), self.rid(ty, dy));
+                match guarded(move || w.has_value_raw(id)) { Ok(b) => out(if b { "true" } else { "false" }, "", vec![]), Err(y) => out("panic", y, vec![]) }
+            }
+            "fetch" | "try_fetch" | "fetch_mut" | "try_fetch_mut" | "try_fetch_by_id" | "try_fetch_mut_by_id" => {
+                gs.clear();
+                let matching = c.targ == ty;
+                let (w, id) = (self.w(), self.rid(ty, dy));
+                let kind = if op.contains("mut") { 'w' } else { 'r' };
+                let r: Res<Option<Box<dyn AnyGuard>>> = with_ty!(self.ci(c.targ), R => match op {
+                    "fetch" => guarded(move || Some(Box::new(w.fetch::<R>()) as Box<dyn AnyGuard>)),
+                    "try_fetch" => guarded(move || w.try_fetch::<R>().map(|g| Box::new(g) as Box<dyn AnyGuard>)),
+                    "fetch_mut" => guarded(move || Some(Box::new(w.fetch_mut::<R>()) as Box<dyn AnyGuard>)),
+                    "try_fetch_mut" => guarded(move || w.try_fetch_mut::<R>().map(|g| Box::new(g) as Box<dyn AnyGuard>)),
+                    "try_fetch_by_id" => guarded(move || w.try_fetch_by_id::<R>(id).map(|g| Box::new(g) as Box<dyn AnyGuard>)),
+                    _ => guarded(move || w.try_fetch_mut_by_id::<R>(id).map(|g| Box::new(g) as Box<dyn AnyGuard>)),
+                });
+                match r {
+                    Ok(Some(g)) => {
+                        if !matching {
+                            // a guard of the wrong static type: never dereferenced, released at once
+                            drop(g);
+                            return out("guard", "", vec![]);
+                        }
+                        let v = self.val(g.read());
+                        let gid = self.grant(g, ty, dy, kind);
+                        gs.push(gid);
+                        out("guard", "", vec![v])
+                    }
+                    Ok(None) => out("none", "", vec![]),
+                    Err(y) => out("panic", y, vec![]),
+                }
+            }
+            "clone" => {
+                let src = c.gs[0];
+                let e = &self.table[&src];
+                let (ty, dy) = (e.ty, e.dy);
+                let r = guarded(|| e.g.dup());
+                *gs = vec![src];
+                match r {
+                    Ok(Some(g)) => {
+                        let v = self.val(g.read());
+                        let gid = self.grant(g, ty, dy, 'r');
+                        gs.push(gid);
+                        out("guard", "", vec![v])
+                    }
+                    Ok(None) => out("none", "", vec![]),
+                    Err(y) => out("panic", y, vec![]),
+                }
+            }
+            "drop" => {
+                let e = self.table.remove(&c.gs[0]).expect("harness: unknown guard");
+                match guarded(move || drop(e)) { Ok(()) => out("unit", "", vec![]), Err(y) => out("panic", y, vec![]) }
+            }
+            "unwind" => {
+                let held: Vec<GEntry> = c.gs.iter().map(|g| self.table.remove(g).expect("harness: unknown guard")).collect();
+                let r = guarded(move || {
+                    let _frame = held;
+                    if !_frame.is_empty() {
+                        panic!("user: unwinding through live guards");
+                    }
+                });
+                match r { Ok(()) => out("unit", "", vec![]), Err(y) => out("panic", y, vec![]) }
+            }
+            "write" => {
+                let e = self.table.get_mut(&c.gs[0]).expect("harness: unknown guard");
+                match guarded(|| e.g.write(p)) { Ok(()) => out("unit", "", vec![]), Err(y) => out("panic", y, vec![]) }
+            }
+            "system_data" | "setup" | "exec" | "exec_panic" => {
+                gs.clear();
+                match c.shape.len() {
+                    1 => {
+                        let m = &c.shape[0];
+                        with_member!(m.k.as_str(), self.ci(m.t), M1 => self.shape_op::<M1, ()>(c, gs))
+                    }
+                    2 => {
+                        let (m, n) = (&c.shape[0], &c.shape[1]);
+                        with_member!(m.k.as_str(), self.ci(m.t), M1 =>
+                            with_member!(n.k.as_str(), self.ci(n.t), M2 => self.shape_op::<M1, M2>(c, gs)))
+                    }
+                    _ => panic!("harness: shapes have 1 or 2 members"),
+                }
+            }
+            "meta_iter" | "meta_iter_mut" => {
+                gs.clear();
+                let w = self.w();
+                let meta: &'static MetaTable<dyn Probe> = unsafe { &*self.meta };
+                let r: Res<Vec<(Box<dyn AnyGuard>, char)>> = if op == "meta_iter" {
+                    guarded(|| {
+                        let mut held: Vec<(Box<dyn AnyGuard>, char)> = Vec::new();
+                        let mut it = meta.iter(w);
+                        while let Some(x) = it.next() {
+                            held.push((Box::new(x), 'r'));
+                        }
+                        held
+                    })
+                } else {
+                    guarded(|| {
+                        let mut held: Vec<(Box<dyn AnyGuard>, char)> = Vec::new();
+                        let mut it = meta.iter_mut(w);
+                        while let Some(x) = it.next() {
+                            held.push((Box::new(x), 'w'));
+                        }
+                        held
+                    })
+                };
+                match r {
+                    Ok(held) => {
+                        // which (type, 0) each item belongs to is read through the item itself
+                        let mut vs = vec![noval(); self.tymap.len()];
+                        for (g, kind) in held {
+                            let x = g.read();
+                            let t = self.abs(x.0);
+                            if t >= 1 {
+                                vs[t as usize - 1] = self.val(x);
+                            }
+                            let gid = self.grant(g, t.max(0) as u32, 0, kind);
+                            gs.push(gid);
+                        }
+                        out("guards", "", vs)
+                    }
+                    Err(y) => out("panic", y, vec![]),
+                }
+            }
+            _ => panic!("harness: unknown op {}", op),
+        }
+    }
+
+    fn shape_op<A: MemberOrUnit, B: MemberOrUnit>(&mut self, c: &CallSpec, gs: &mut Vec<u32>) -> Value {
+        let p = c.p;
+        match c.op.as_str() {
+            "system_data" => {
+                let w = self.w();
+                match guarded(move || w.system_data::<(A::M, B::M)>()) {
+                    Ok((a, b)) => {
+                        let mut vs = Vec::new();
+                        let items = [A::guard(a), B::guard(b)];
+                        for (k, it) in items.into_iter().enumerate() {
+                            if k >= c.shape.len() {
+                                continue;
+                            }
+                            match it {
+                                Some((g, kind)) => {
+                                    vs.push(self.val(g.read()));
+                                    let gid = self.grant(g, c.shape[k].t, 0, kind);
+                                    gs.push(gid);
+                                }
+                                None => vs.push(noval()),
+                            }
+                        }
+                        out("guards", "", vs)
+                    }
+                    Err(y) => out("panic", y, vec![]),
+                }
+            }
+            "setup" => {
+                let w = self.wm();
+                match guarded(move || w.setup::<(A::M, B::M)>()) { Ok(()) => out("unit", "", vec![]), Err(y) => out("panic", y, vec![]) }
+            }
+            _ => {
+                let fp = c.op == "exec_panic";
+                let w = self.wm();
+                let n = c.shape.len();
+                let r = guarded(move || {
+                    w.exec(|(mut a, mut b): (A::M, B::M)| {
+                        let seen = [A::peek(&a), B::peek(&b)];
+                        if p != 0 {
+                            A::poke(&mut a, p);
+                            B::poke(&mut b, p);
+                        }
+                        if fp {
+                            panic!("user: panic inside exec");
+                        }
+                        seen
+                    })
+                });
+                match r {
+                    Ok(seen) => out("guards", "", seen.iter().take(n).map(|s| s.map(|x| self.val(x)).unwrap_or_else(noval)).collect()),
+                    Err(y) => out("panic", y, vec![]),
+                }
+            }
+        }
+    }
+}
+
+/// a shape member, or `()` padding for one-member shapes
+pub trait MemberOrUnit {
+    type M: SystemData<'static>;
+    fn guard(m: Self::M) -> Option<(Box<dyn AnyGuard>, char)>;
+    fn peek(m: &Self::M) -> Option<(usize, i64, u32)>;
+    fn poke(m: &mut Self::M, p: i64);
+}
+impl MemberOrUnit for () {
+    type M = ();
+    fn guard(_: ()) -> Option<(Box<dyn AnyGuard>, char)> {
+        None
+    }
+    fn peek(_: &()) -> Option<(usize, i64, u32)> {
+        None
+    }
+    fn poke(_: &mut (), _: i64) {}
+}
+impl<X: Member> MemberOrUnit for X {
+    type M = X;
+    fn guard(m: X) -> Option<(Box<dyn AnyGuard>, char)> {
+        m.into_guard()
+    }
+    fn peek(m: &X) -> Option<(usize, i64, u32)> {
+        Member::peek(m)
+    }
+    fn poke(m: &mut X, p: i64) {
+        Member::poke(m, p)
+    }
+}
+
+/// one of the six shared-reference fetch paths with a MATCHING type argument (multi-thread mode)
+pub fn thread_fetch(w: &'static World, op: &str, ci: usize, id: ResourceId) -> Option<Box<dyn AnyGuard>> {
+    with_ty!(ci, R => match op {
+        "fetch" => Some(Box::new(w.fetch::<R>()) as Box<dyn AnyGuard>),
+        "try_fetch" => w.try_fetch::<R>().map(|g| Box::new(g) as Box<dyn AnyGuard>),
+        "fetch_mut" => Some(Box::new(w.fetch_mut::<R>()) as Box<dyn AnyGuard>),
+        "try_fetch_mut" => w.try_fetch_mut::<R>().map(|g| Box::new(g) as Box<dyn AnyGuard>),
+        "try_fetch_by_id" => w.try_fetch_by_id::<R>(id).map(|g| Box::new(g) as Box<dyn AnyGuard>),
+        _ => w.try_fetch_mut_by_id::<R>(id).map(|g| Box::new(g) as Box<dyn AnyGuard>),
+    })
+}
